@@ -17,7 +17,22 @@ def run_case(c):
     has_main = 'fn main(' in src
     steps = [{'feed': src}, {'op': 'inst'}] + ([{'op': 'call', 'name': 'main'}] if has_main and c['expect'] == 'main-true' else [])
     job = {'id': 0, 'limits': c.get('limits') or {}, 'perms': c.get('perms') or {}, 'steps': steps}
-    rep = run_job(job, timeout=30.0)
+    if c.get('stack_mb'):
+        # a dedicated runner whose evaluation threads have the given stack size (the pool's have 512 MB)
+        from .core import Runner
+        old = os.environ.get('XR_STACK_MB')
+        os.environ['XR_STACK_MB'] = str(c['stack_mb'])
+        try:
+            r = Runner()
+            rep = r.run(job, timeout=60.0)
+            r.stop()
+        finally:
+            if old is None:
+                os.environ.pop('XR_STACK_MB', None)
+            else:
+                os.environ['XR_STACK_MB'] = old
+    else:
+        rep = run_job(job, timeout=30.0)
     if 'fatal' in rep:
         return 'fatal:' + str(rep['fatal']), job
     rs = [x for x in rep['replies'] if 'v' in x]
